@@ -9,3 +9,9 @@ FIELDS = {'BezierCurve': ['__ctrlpoints'], 'PlanarCurve': ['__planar'], 'JordanC
 
 # name-mangled private methods of each class: (number of parameters, the methods of the class that call them)
 PRIVATE_METHODS = {'JordanCurve': {'__split_segment': (3, ['split']), '__intersection': (2, ['intersection'])}, 'SimpleShape': {'__set_jordancurve': (2, ['__init__']), '__contains_simple': (2, ['_contains_shape'])}}
+
+
+def is_new_helper(name):
+    """a function a later change added: not one of the baseline names (whatever its spelling -- a tidy-up may as well
+    cut code into a *public* helper), and not a special method"""
+    return name not in KNOWN and not (name.startswith("__") and name.endswith("__"))
